@@ -92,6 +92,8 @@ def parseOp (l : Line) : Option Op :=
   | "vw.substr" => some (.vwSubstr a b) | "vw.copy" => some (.vwCopy a b)
   | "sp.at" => some (.spAt a) | "sp.front" => some .spFront | "sp.back" => some .spBack
   | "sp.first" => some (.spFirst a) | "sp.last" => some (.spLast a) | "sp.subspan" => some (.spSubspan a b)
+  | "sp.first_t" => some (.spFirstT a) | "sp.last_t" => some (.spLastT a) | "sp.subspan_t" => some (.spSubspanT a b)
+  | "sp.ctor_ext" => (sizeArg l "ext").map fun e => .spCtorExt k e
   | "ar.at" => (sizeArg l "i").map fun i => .arAt k i
   | "ar.front" => some (.arFront k) | "ar.back" => some (.arBack k)
   | "str.insert" => some (.strInsert k a xs)
@@ -121,7 +123,7 @@ def parseOp (l : Line) : Option Op :=
   | "bs.op" => match l.nat? "w", sizeArg l "pos" with | some w, some q => some (.bs w q ((l.int? "v").getD 1)) | _, _ => none
   | "bs.ctor" => match sizeArg l "pos", sizeArg l "n" with | some q, some n => some (.bsCtor q n 5) | _, _ => none
   | "bit" => match l.nat? "which", l.nat? "w", sizeArg l "pos" with | some wh, some w, some q => some (.bit wh w q) | _, _, _ => none
-  | "div_sat" => (l.int? "y").map .divSat
+  | "div_sat" => match l.int? "x", l.int? "y" with | some x, some y => some (.divSat x y) | _, _ => none
   | "day" => (l.nat? "d").map .dayCtor
   | "month" => (l.nat? "d").map .monthCtor
   | "stride" => match l.str? "l", sizeArg l "r" with | some lay, some r => some (.stride lay r) | _, _ => none
